@@ -20,3 +20,13 @@ func VerifIdleTask(schedule interface{}) (s *Stream, closedStatus int32, ok bool
 	}
 	return r.s, r.closedStats, true
 }
+
+// VerifRegistry returns a snapshot of the stream registry: the exact keys and the streams stored under them.
+func VerifRegistry() map[string]*Stream {
+	m := map[string]*Stream{}
+	streams.Range(func(key, value interface{}) bool {
+		m[key.(string)] = value.(*Stream)
+		return true
+	})
+	return m
+}
